@@ -839,7 +839,34 @@ def c11(run, drv, rng, ncases):
                     run.count("balance_not_evaluable_on_both_sides")
                 elif abs(Db[i]) < 1e-10:
                     run.count("dissipation_at_rounding_level")      # 1e-13 against typical 1e-4: numerically no dissipation
-                elif not (straddle or small):
+                other_branch = False
+                if lo_side and hi_side and abs(Db[i]) >= 1e-10 and not (straddle or small):
+                    # The stress balance can have more than one root for the roughness; the inversion continues the roughness from
+                    # its previous evaluation (it comes down from the first guess), a cold start may land on another root. The
+                    # balance has to close for a roughness that satisfies the stress balance: try the continued branches too.
+                    one_ = wp.subset(spec, [i])
+
+                    def balance_warm(u, from_u):
+                        try:
+                            zg = gen.roughness(wp.da([from_u]), wp.da([Ddir[i]]), one_)
+                            zz = gen.roughness(wp.da([u]), wp.da([Ddir[i]]), one_, roughness_length_guess=zg)
+                            S_ = gen.rate(one_, wp.da([u]), wp.da([Ddir[i]]), roughness_length=zz).values[0]
+                        except Exception:
+                            return float("nan")
+                        act_ = 0.0
+                        if tds is not None:
+                            act_ = float(np.sum(np.where(S_ > 0, tds.variance_density.values[i], 0.0) * df[:, None] * dth[None, :]))
+                        return float(np.sum(S_ * df[:, None] * dth[None, :])) + float(Db[i]) - act_
+                    for from_u in (1.5 * float(u10[i]), 2.5 * float(u10[i]), 0.5 * float(u10[i])):
+                        wv = [balance_warm(max(float(u10[i]) + o, 1e-3), from_u) for o in offs]
+                        wf = [b for b in wv if np.isfinite(b)]
+                        if wf and (min(wf) <= 0 <= max(wf) or any(abs(b) <= 1e-3 * abs(Db[i]) for b in wf)):
+                            other_branch = True
+                            run.count("balance_closes_on_a_continued_roughness_branch")
+                            break
+                if not lo_side or not hi_side or abs(Db[i]) < 1e-10:
+                    pass
+                elif not (straddle or small) and not other_branch:
                     run.violation("integrated wind input plus dissipation (minus the active rate of change) does not vanish within ten solver steps (0.1 m/s) of the estimated U10",
                                   dict(what, balance_at_offsets=[[o, b] for o, b in vals]))
                 # correspondence: the model's balance function and inversion
@@ -849,6 +876,8 @@ def c11(run, drv, rng, ncases):
                 mvf = float("nan") if mv in ("nan", "raised") else from_bits(mv)
                 if np.isfinite(b0) and not (abs(mvf - b0) <= 1e-4 * abs(Db[i])):
                     run.mismatch("u10_iteration_function", dict(what, impl=b0, model=mvf))
+                if other_branch:
+                    continue          # the model restarts the roughness cold at every evaluation: another branch, another inversion
                 guess = 10.0
                 from ocean_science_utilities.wavephysics.windestimate import estimate_u10_from_spectrum
                 guess = float(np.atleast_1d(estimate_u10_from_spectrum(wp.subset(spec, [i]), "peak", direction_convention="going_to_counter_clockwise_east")["u10"].values)[0])
